@@ -85,6 +85,17 @@ pub fn run(ctx: &Ctx) -> Report {
         });
         rep.absorb(r);
     }
+    // whitespace outside ASCII (multi-byte: NBSP, NEL, EM SPACE, IDEOGRAPHIC SPACE) around and between other characters: all strings of
+    // <= 4 (thorough 5) symbols over {a, space, LF, U+00A0, U+0085, U+2003, U+3000, e-acute}
+    const WS: [&str; 8] = ["a", " ", "\n", "\u{a0}", "\u{85}", "\u{2003}", "\u{3000}", "é"];
+    for len in 1..=ctx.pick(4usize, 5usize) {
+        let r = sweep(ctx, 8u64.pow(len as u32), 1024, |i, acc| {
+            let mut k = i; let mut s = String::new(); for _ in 0..len { s.push_str(WS[(k % 8) as usize]); k /= 8; }
+            acc.evals += 1; acc.transitions += s.len() as u64; acc.count("unicode_whitespace_texts", 1);
+            if let Some((sig, d)) = check(&s) { acc.violation(sig, hex(s.as_bytes()), d); }
+        });
+        rep.absorb(r);
+    }
     // every short string at every alignment inside a longer text
     let npad = 8u64.pow(4) + 8u64.pow(3) + 64 + 8 + 1;
     let r = sweep(ctx, npad * 9, 512, |i, acc| {
